@@ -12,6 +12,7 @@ from . import opaque
 from .core import (Ctx, Enc, Infeasible, Lit, Mismatch, Obligation, PyRaise, Raw, SBytes, SOpt, Sym, Undecided,
                    explore, normalise, segs_eq, sym_eq, tobool, total_len, zint, SOLVER_TIMEOUT_MS)
 from .interp import Interp
+from .interp import FrameViolation
 from .models import LocalBytesIO, Sink, Source, base_models, IfaceViolation
 
 
@@ -187,6 +188,21 @@ def explore_unit(res, run):
             res.effects.extend(ctx.effects)
             ob = Obligation(f"{res.unit}/stream-used-only-through-read-and-write", ctx.pc, z3.BoolVal(False),
                             info={"expected": "buffer used only through write(bytes) / read(int)", "got": str(ex)})
+            res.obligations.append(ob)
+        except FrameViolation as ex:
+            # the function reads or writes state that outlives the call (a captured or module-level mutable object)
+            # with data of the call: what it does is then a function of the call HISTORY, not of its arguments, and
+            # every property stated per call fails for some history. Reported as a failing obligation; the unit may
+            # supply a native search for a witness history (res.history_replayer).
+            if ctx.check(timeout=SOLVER_TIMEOUT_MS) == z3.unsat:
+                continue
+            res.effects.extend(ctx.effects)
+            hr = getattr(res, "history_replayer", None)
+            if hr is None:
+                res.undecided.append((res.unit, str(ex)))      # only the frame checks (C07, C19) judge it without a witness
+                continue
+            ob = Obligation(f"{res.unit}/result-depends-only-on-the-arguments", ctx.pc, z3.BoolVal(False),
+                            info={"expected": "no state shared between calls", "got": str(ex), "replayer": hr})
             res.obligations.append(ob)
         except Undecided as ex:
             if ctx.check(timeout=SOLVER_TIMEOUT_MS) == z3.unsat:
